@@ -164,6 +164,15 @@ def _split_ifexp(st):
     elif isinstance(st, ast.Return) and isinstance(st.value, ast.IfExp):
         e = st.value
         mk = lambda v: _loc(ast.Return(value=copy.deepcopy(v)), st)
+    elif isinstance(st, ast.Expr) and isinstance(st.value, ast.Call) and isinstance(st.value.func, ast.Attribute) and isinstance(st.value.func.value, ast.Name) \
+            and len(st.value.args) == 1 and not st.value.keywords and isinstance(st.value.args[0], ast.IfExp):
+        # xs.append(A if c else B)  ->  if c: xs.append(A) else: xs.append(B)     (the receiver is a plain name)
+        e = st.value.args[0]
+
+        def mk(v):
+            c = copy.deepcopy(st.value)
+            c.args = [copy.deepcopy(v)]
+            return _loc(ast.Expr(value=c), st)
     else:
         return None
     STATS["ifexp"] += 1
@@ -335,15 +344,15 @@ def _unroll_literal(st):
         return None
 
     def atom(e):
-        return (isinstance(e, (ast.Name, ast.Attribute)) and access_path(e) is not None) or \
-            (isinstance(e, ast.Constant) and isinstance(e.value, str))
+        return (isinstance(e, (ast.Name, ast.Attribute)) and access_path(e) is not None) or isinstance(e, ast.Constant) or \
+            (isinstance(e, ast.UnaryOp) and isinstance(e.op, (ast.USub, ast.UAdd)) and isinstance(e.operand, ast.Constant))
     if isinstance(st.target, ast.Name):
         targets = [st.target.id]
         rows = [[e] for e in st.iter.elts]
         names = all(isinstance(e, (ast.Name, ast.Attribute)) and access_path(e) is not None for e in st.iter.elts)
         strings = all(isinstance(e, ast.Constant) and isinstance(e.value, str) for e in st.iter.elts)      # field names
         if not (names or strings):
-            return None
+            return None          # a loop over literal numbers (signs, factors) is kept: rules read its domain off the literal
     elif isinstance(st.target, ast.Tuple) and all(isinstance(t, ast.Name) for t in st.target.elts):
         targets = [t.id for t in st.target.elts]
         if len(set(targets)) != len(targets):
@@ -353,7 +362,7 @@ def _unroll_literal(st):
         rows = [list(e.elts) for e in st.iter.elts]
     else:
         return None
-    elem_paths = {access_path(x) for r in rows for x in r if not isinstance(x, ast.Constant)}
+    elem_paths = {access_path(x) for r in rows for x in r if isinstance(x, (ast.Name, ast.Attribute))} - {None}
     for n in ast.walk(ast.Module(body=st.body, type_ignores=[])):
         if isinstance(n, (ast.Break, ast.Continue, ast.FunctionDef, ast.Lambda, ast.AsyncFunctionDef)):
             return None
@@ -571,6 +580,35 @@ def _enum_to_range(st):
                                 args=[ast.Call(func=ast.Name(id="len", ctx=ast.Load()), args=[copy.deepcopy(X)], keywords=[])], keywords=[]),
                   body=[S().visit(b) for b in st.body], orelse=[])
     STATS["enum_range"] = STATS.get("enum_range", 0) + 1
+    return [_loc(new, st)]
+
+
+def _filter_map_loop(st, fx):
+    """for x in filter(P, X): body  ->  for x in X: if not P(x): continue; body        (filter is lazy: P(x) is evaluated just
+    before x is handed out)
+    for y in map(F, X): body     ->  for m in X: y = F(m); body"""
+    if not (isinstance(st, ast.For) and not st.orelse and isinstance(st.iter, ast.Call) and isinstance(st.iter.func, ast.Name)
+            and st.iter.func.id in ("filter", "map") and len(st.iter.args) == 2 and not st.iter.keywords):
+        return None
+    F, X = st.iter.args
+    if not isinstance(F, (ast.Name, ast.Lambda, ast.Attribute, ast.Constant)) or any(isinstance(a, ast.Starred) for a in st.iter.args):
+        return None
+    if isinstance(F, ast.Name) and any(isinstance(n, ast.Name) and n.id == F.id and not isinstance(n.ctx, ast.Load) for b in st.body for n in ast.walk(b)):
+        return None
+    if st.iter.func.id == "filter":
+        if not isinstance(st.target, ast.Name):
+            return None
+        x = ast.Name(id=st.target.id, ctx=ast.Load())
+        test = x if (isinstance(F, ast.Constant) and F.value is None) else ast.Call(func=copy.deepcopy(F), args=[x], keywords=[])
+        guard = ast.If(test=ast.UnaryOp(op=ast.Not(), operand=test), body=[ast.Continue()], orelse=[])
+        new = ast.For(target=st.target, iter=X, body=[guard] + st.body, orelse=[])
+    else:
+        if isinstance(F, ast.Constant):
+            return None
+        m = fx.fresh("m")
+        bind = ast.Assign(targets=[st.target], value=ast.Call(func=copy.deepcopy(F), args=[ast.Name(id=m, ctx=ast.Load())], keywords=[]))
+        new = ast.For(target=ast.Name(id=m, ctx=ast.Store()), iter=X, body=[bind] + st.body, orelse=[])
+    STATS["filter_map"] = STATS.get("filter_map", 0) + 1
     return [_loc(new, st)]
 
 
@@ -1087,6 +1125,18 @@ def _block(stmts, fx, occ, top=False):
             STATS["rettemp"] = STATS.get("rettemp", 0) + 1
             out[k - 1:k + 1] = [_loc(ast.Return(value=a.value), b)]
             continue
+        # `t = y; S(t)` with y a plain name, t read once in the simple statement S and nowhere else: S(y)
+        if isinstance(a, ast.Assign) and len(a.targets) == 1 and isinstance(a.targets[0], ast.Name) and isinstance(a.value, ast.Name) \
+                and isinstance(b, (ast.Expr, ast.Assign, ast.Return, ast.AugAssign)) and occ.get(a.targets[0].id, 0) == 2 \
+                and a.targets[0].id != a.value.id:
+            t, y = a.targets[0].id, a.value.id
+            uses = [n for n in ast.walk(b) if isinstance(n, ast.Name) and n.id == t]
+            if len(uses) == 1 and isinstance(uses[0].ctx, ast.Load) and not any(isinstance(n, ast.Name) and n.id == y and not isinstance(n.ctx, ast.Load) for n in ast.walk(b)) \
+                    and not any(isinstance(n, (ast.Lambda, ast.ListComp, ast.SetComp, ast.DictComp, ast.GeneratorExp)) for n in ast.walk(b)):
+                uses[0].id = y
+                STATS["copytemp"] = STATS.get("copytemp", 0) + 1
+                del out[k - 1]
+                continue
         k += 1
     return out
 
@@ -1127,6 +1177,14 @@ def _stmt(st, fx, occ):
             loop = _loc(ast.While(test=ast.Constant(value=True), body=[assign, brk] + st.body, orelse=[]), st)
             STATS["walrus_while"] = STATS.get("walrus_while", 0) + 1
             return _block([loop], fx, occ)
+    if isinstance(st, ast.AugAssign) and isinstance(st.op, ast.Add) and isinstance(st.target, ast.Name) and isinstance(st.value, (ast.ListComp, ast.List)):
+        elts = [st.value.elt] if isinstance(st.value, ast.ListComp) else list(st.value.elts)
+        if elts and all(isinstance(e, (ast.Call, ast.Name, ast.Attribute, ast.List, ast.Tuple, ast.Dict)) for e in elts) \
+                and not any(isinstance(e, ast.Call) and (access_path(e.func) or "") in ("float", "int", "abs", "round", "len") for e in elts):
+            # xs += [f(v) for v in ys] on a list of objects is xs.extend([...]) (a numeric right-hand side could be array arithmetic: left alone)
+            STATS["aug_extend"] = STATS.get("aug_extend", 0) + 1
+            st = _loc(ast.Expr(value=ast.Call(func=ast.Attribute(value=ast.Name(id=st.target.id, ctx=ast.Load()), attr="extend", ctx=ast.Load()),
+                                              args=[st.value], keywords=[])), st)
     _comp_walrus(st, occ)
     for f_, v_ in ast.iter_fields(st):
         if isinstance(v_, ast.expr):
@@ -1158,6 +1216,9 @@ def _stmt(st, fx, occ):
             else:
                 out_.append(x_)
         return out_
+    r = _filter_map_loop(st, fx)
+    if r is not None:
+        return _block(r, fx, occ)
     r = _enum_to_range(st)
     if r is not None:
         return _block(r, fx, occ)
@@ -1411,6 +1472,31 @@ def _fuse_list_loops(fn, fx):
     return changed
 
 
+def _defs_to_lambdas(fn):
+    """a nested `def f(a, b): return E` (plain parameters, no decorator, not recursive) is the local `f = lambda a, b: E`"""
+    for node in ast.walk(fn):
+        for f in ("body", "orelse", "finalbody"):
+            b = getattr(node, f, None)
+            if not (isinstance(b, list) and b and isinstance(b[0], ast.stmt)):
+                continue
+            for k, st in enumerate(b):
+                if not (isinstance(st, ast.FunctionDef) and st is not fn and not st.decorator_list):
+                    continue
+                a = st.args
+                if a.vararg or a.kwarg or a.kwonlyargs or a.posonlyargs or a.defaults:
+                    continue
+                body = [x for x in st.body if not (isinstance(x, ast.Expr) and isinstance(x.value, ast.Constant))]
+                if len(body) != 1 or not isinstance(body[0], ast.Return) or body[0].value is None:
+                    continue
+                if any(isinstance(x, ast.Name) and x.id == st.name for x in ast.walk(body[0].value)) \
+                        or any(isinstance(x, (ast.Yield, ast.YieldFrom, ast.Await, ast.NamedExpr)) for x in ast.walk(body[0].value)):
+                    continue
+                lam = ast.Lambda(args=ast.arguments(posonlyargs=[], args=[ast.arg(arg=x.arg) for x in a.args], kwonlyargs=[], kw_defaults=[], defaults=[]),
+                                 body=body[0].value)
+                b[k] = _loc(ast.Assign(targets=[ast.Name(id=st.name, ctx=ast.Store())], value=lam), st)
+                STATS["def_lambda"] = STATS.get("def_lambda", 0) + 1
+
+
 def _strip_annotations(fn):
     """annotated assignments of the function's own statements become plain ones (before any other pass looks at them)"""
     for node in ast.walk(fn):
@@ -1556,6 +1642,7 @@ COMP = [True]     # lower statement-level comprehensions (switched off for the r
 
 def normalize_function(fn):
     _strip_annotations(fn)
+    _defs_to_lambdas(fn)
     if UNALIAS[0]:
         _unalias(fn)
     fx = _Fn(fn)
@@ -1646,6 +1733,35 @@ def module_constants(tree):
 
 
 PKG_CONSTS = {}      # module name -> its literal constants (filled by the loader for `from .m import NAME`)
+CLASS_CONSTS = {}    # attribute name -> literal, for class-level constants that are unique in the package (filled by the loader)
+
+
+def class_constants(trees):
+    """NAME = <literal> in a class body, for names bound by exactly one class of the package and never assigned through an
+    attribute store anywhere (`self.NAME = ..`, `Cls.NAME = ..`): reading `self.NAME` / `cls.NAME` / `Cls.NAME` gives the literal"""
+    defs, stored = {}, set()
+    for tree in trees:
+        for n in ast.walk(tree):
+            if isinstance(n, ast.ClassDef):
+                for st in n.body:
+                    tg = v = None
+                    if isinstance(st, ast.Assign) and len(st.targets) == 1 and isinstance(st.targets[0], ast.Name):
+                        tg, v = st.targets[0].id, st.value
+                    elif isinstance(st, ast.AnnAssign) and isinstance(st.target, ast.Name) and st.value is not None:
+                        tg, v = st.target.id, st.value
+                    if tg is not None:
+                        defs.setdefault(tg, []).append(v)
+                    # names bound otherwise in a class body (methods, nested classes) shadow nothing here
+            elif isinstance(n, ast.Attribute) and not isinstance(n.ctx, ast.Load):
+                stored.add(n.attr)
+            elif isinstance(n, ast.Call) and isinstance(n.func, ast.Name) and n.func.id == "setattr" and len(n.args) >= 2:
+                if isinstance(n.args[1], ast.Constant) and isinstance(n.args[1].value, str):
+                    stored.add(n.args[1].value)
+                else:
+                    stored.add("*")
+    if "*" in stored:
+        return {}
+    return {k: v[0] for k, v in defs.items() if len(v) == 1 and k not in stored and k.isupper() and (_literal(v[0]) or _literal_list(v[0]))}
 
 
 def _inline_constants(tree):
@@ -1659,8 +1775,13 @@ def _inline_constants(tree):
                 if a.name in src and (a.asname or a.name) not in consts:
                     # imported under a name that is bound only by this import
                     consts[a.asname or a.name] = src[a.name]
-    if not consts:
+    class_names = {c.name for c in ast.walk(tree) if isinstance(c, ast.ClassDef)}
+    for st in tree.body:
+        if isinstance(st, ast.ImportFrom) and st.level >= 1:
+            class_names |= {a.asname or a.name for a in st.names}
+    if not consts and not CLASS_CONSTS:
         return tree
+    recv = [set()]
 
     class S(ast.NodeTransformer):
         def visit_Name(self, n):
@@ -1668,13 +1789,22 @@ def _inline_constants(tree):
                 STATS["const"] = STATS.get("const", 0) + 1
                 return _loc(copy.deepcopy(consts[n.id]), n)
             return n
+
+        def visit_Attribute(self, n):
+            # self.MAX_TRIES / cls.MAX_TRIES / Job.MAX_TRIES with MAX_TRIES a unique class-level literal of the package
+            if isinstance(n.ctx, ast.Load) and n.attr in CLASS_CONSTS and isinstance(n.value, ast.Name) and (n.value.id in recv[0] or n.value.id in class_names):
+                STATS["class_const"] = STATS.get("class_const", 0) + 1
+                return _loc(copy.deepcopy(CLASS_CONSTS[n.attr]), n)
+            return self.generic_visit(n)
     for fn in ast.walk(tree):
         if isinstance(fn, (ast.FunctionDef, ast.AsyncFunctionDef)):
             shadow = {a.arg for a in ast.walk(fn.args) if isinstance(a, ast.arg)}
             shadow |= {n.id for n in ast.walk(fn) if isinstance(n, ast.Name) and not isinstance(n.ctx, ast.Load)}
             live = {k: v for k, v in consts.items() if k not in shadow}
-            if live:
-                saved, consts_ref = consts, live
+            first = fn.args.args[0].arg if fn.args.args else None
+            recv[0] = {first} if first in ("self", "cls") else set()
+            if live or CLASS_CONSTS:
+                saved = consts
                 consts = live
                 fn.body = [S().visit(b) for b in fn.body]
                 # default values read the constant at definition time: the same literal
